@@ -1,3 +1,4 @@
+import JokerVerif.Props.C01
 import JokerVerif.Lemmas.RejectLemmas
 import Mathlib.MeasureTheory.Measure.Lebesgue.Basic
 import Mathlib.Analysis.SpecialFunctions.Log.Basic
@@ -294,3 +295,36 @@ example : (fun x : ℚ => if x = 0 then (1 : ℚ) else 0) 0 = 1 ∧ ∀ u ∈ [(
 end Examples
 
 end Reject
+
+/-! ### End to end: kernel ∘ rejection rule
+
+Composition of C01 (`Kernel.kernel_ll_eq_lnN`: the kernel's value is the analytic Gaussian marginal) with the
+acceptance rule: the sampler keeps prior sample `p` exactly when its uniform draw is below the ratio of the
+*analytic* marginal likelihoods `N(y | Mμ, B)_p / max_j N(y | Mμ, B)_j`. -/
+namespace Kernel
+noncomputable section
+open Matrix
+open Classical in
+theorem sampler_keeps_by_marginal_likelihood_ratio {n k : ℕ}
+    (lib : List (KIn n k ℝ × (Fin n → ℝ))) (hphys : ∀ q ∈ lib, Phys q.1 q.2) (uu : List ℝ) (p : Nat) :
+    let L : KIn n k ℝ × (Fin n → ℝ) → ℝ := fun q =>
+      lnN (vfun q.1.y) (q.1.M.toM *ᵥ vfun q.1.mu)
+        (Matrix.diagonal (fun i => (q.2 i) ^ 2) + (q.1.s ^ 2) • (1 : Matrix (Fin n) (Fin n) ℝ)
+          + q.1.M.toM * Matrix.diagonal (vfun q.1.lam) * q.1.M.toMᵀ)
+    p ∈ Reject.goodPos Real.exp (lib.map fun q => kll q.1) uu ↔
+      ∃ m l u, Reject.maxOf (lib.map L) = some m ∧ (lib.map L)[p]? = some l ∧ uu[p]? = some u ∧
+        u < Real.exp l / Real.exp m := by
+  intro L
+  have h : (lib.map fun q => kll q.1) = lib.map L := by
+    apply List.map_congr_left
+    intro q hq
+    exact kernel_ll_eq_lnN q.1 q.2 (hphys q hq)
+  rw [h, Reject.accept_iff]
+  constructor
+  · rintro ⟨m, l, u, hm, hl, hu, hlt⟩
+    exact ⟨m, l, u, hm, hl, hu, by rwa [← Real.exp_sub]⟩
+  · rintro ⟨m, l, u, hm, hl, hu, hlt⟩
+    exact ⟨m, l, u, hm, hl, hu, by rwa [Real.exp_sub]⟩
+
+end
+end Kernel
